@@ -91,9 +91,13 @@ def _value_tokens(v: Any, fmt: Fmt) -> List[str]:
     raise TypeError(v)
 
 
+def _num_text(x: Any) -> str:
+    return x.text if isinstance(x, M.Num) else str(x)
+
+
 def _type_tokens(t: M.Type) -> List[str]:
     if isinstance(t, M.Arr):
-        return ["["] + _type_tokens(t.t) + [",", str(t.n), "]"]
+        return ["["] + _type_tokens(t.t) + [",", _num_text(t.n), "]"]
     if isinstance(t, M.Dyn):
         return ["["] + _type_tokens(t.t) + ["]"]
     if isinstance(t, M.Opt):
@@ -107,7 +111,7 @@ def _float_text(x: float) -> str:
 
 
 def _field_tokens(f: M.Field, fmt: Fmt) -> List[str]:
-    out = [f.name, "@", str(f.fid), ":"] + _type_tokens(f.type)
+    out = [f.name, "@", _num_text(f.fid), ":"] + _type_tokens(f.type)
     params: List[List[str]] = []
     for c in f.param_order:
         if c == "u" and f.unit is not None:
@@ -119,6 +123,8 @@ def _field_tokens(f: M.Field, fmt: Fmt) -> List[str]:
                 + ([","] if fmt.arg_comma(True) else [])
                 + [")"]
             )
+    for rp in f.raw_params or []:
+        params.append(list(rp))
     if params:
         if fmt.lead_bar():
             out.append("|")
@@ -168,9 +174,9 @@ def decl_tokens(d: M.Decl, fmt: Fmt) -> List[str]:
                 out += ["}", ","]
         return out + ["}"]
     if isinstance(d, M.Service):
-        out = ["service", d.name, "@", str(d.id), "{"]
+        out = ["service", d.name, "@", _num_text(d.id), "{"]
         for m in d.methods:
-            out += ["method", m.name, "(", m.input, ")", "@", str(m.id), "returns", m.output, ","]
+            out += ["method", m.name, "(", m.input, ")", "@", _num_text(m.id), "returns", m.output, ","]
         return out + ["}"]
     if isinstance(d, M.Device):
         out = ["device", d.name, "{"]
